@@ -7,8 +7,8 @@
    NOT proved; it is decided per sample point by offset_check, whose meaning is
    theorem offset_check_meaning below. *)
 From Coq Require Import ZArith QArith Reals List Bool Permutation.
-From MV Require Import Geo.Wind2Defs Geo.Simplify2Defs Geo.Simplify2 Geo.Hull2Defs Geo.Hull2
-  Geo.Decomp2Defs Geo.Decomp2 Geo.Offset2Defs Geo.Offset2 Geo.Offset2CheckDefs Geo.Offset2Check.
+From MV Require Import Geo.Wind2Defs Geo.Simplify2Defs Geo.Simplify2 Geo.Hull2Defs Geo.Hull2 Geo.Hull2Correct
+  Geo.Decomp2Defs Geo.Decomp2 Geo.Offset2Defs Geo.Offset2 Geo.Offset2Join Geo.Offset2CheckDefs Geo.Offset2Check.
 Import ListNotations.
 
 (* ================= Simplify ================= *)
@@ -101,16 +101,26 @@ Theorem hull2_check_soundness :
 Proof. exact hull2_check_sound. Qed.
 Print Assumptions hull2_check_soundness.
 
-(* PARTIAL (bounded): the ported HullImpl passes the certificate on every point
-   list of length <= 5 over the 3x3 grid and of length 3..4 over the 4x4 grid
-   (all orders, duplicates, collinear triples).  Missing: the unbounded proof of
-   Andrew's monotone chain; at run time the certificate is evaluated on every
-   output of the library instead. *)
-Theorem hull2_convex_contains_partial :
+(* For EVERY finite point list the ported HullImpl (stable lexicographic sort,
+   lower and upper monotone chains with the exact orientation sign, pop_back,
+   concatenate) returns either a list of >= 3 distinct input points forming a
+   strictly convex counter-clockwise polygon that contains every input point
+   (hull_spec), or fewer than 3 points, and then the input has fewer than 3
+   points or lies on one line (CrossSection::Hull returns the empty section). *)
+Theorem hull2_convex_contains :
+  forall pts : list pt,
+  ((3 <= length (hull2 pts))%nat /\ hull_spec pts (hull2 pts)) \/
+  ((length (hull2 pts) < 3)%nat /\ ((length pts < 3)%nat \/ collinear_spec pts)).
+Proof. exact hull2_correct. Qed.
+Print Assumptions hull2_convex_contains.
+
+(* the bounded sweep kept as a regression example: the executable certificate
+   accepts the port on every list of length <= 5 over the 3x3 grid and of
+   length 3..4 over the 4x4 grid *)
+Example hull2_sweep_example :
   forallb (fun k => forallb hull_case_ok (lists_over (grid 3 3) k)) [0; 1; 2; 3; 4; 5]%nat = true /\
   forallb (fun k => forallb hull_case_ok (lists_over (grid 4 4) k)) [3; 4]%nat = true.
 Proof. exact (conj hull2_small_3x3 hull2_small_4x4). Qed.
-Print Assumptions hull2_convex_contains_partial.
 
 (* ================= Decompose ================= *)
 
@@ -155,6 +165,32 @@ Theorem decompose_area_additivity :
   zsum (map (fun c => zsum (map a2 c)) (decompose n inside area)) = zsum (map a2 (ziota n)).
 Proof. exact decompose_area_additive. Qed.
 Print Assumptions decompose_area_additivity.
+
+(* without any side condition: the components hold exactly the rings that are
+   positive or whose parent walk ends at a positive ring (the code drops orphan
+   holes), each exactly once, so per-ring quantities add up over them *)
+Theorem decompose_area_additivity_kept :
+  forall (n : Z) (inside : Z -> Z -> bool) (area : Z -> Z), 0 <= n ->
+  forall a2 : Z -> Z,
+  zsum (map (fun c => zsum (map a2 c)) (decompose n inside area))
+  = zsum (map a2 (filter (member n inside area) (ziota n))).
+Proof. exact decompose_area_additive_kept. Qed.
+Print Assumptions decompose_area_additivity_kept.
+
+(* the "no orphan hole" hypothesis proved from assumptions on the containment
+   oracle that hold for a regularized cross-section: containment implies
+   strictly smaller |area|, kept rings have non-zero area, every hole is
+   contained in some other ring.  Then every kept ring is in exactly one
+   component (the n+1 hops of the walk suffice) and areas add up to the whole. *)
+Theorem decompose_area_additivity_regular :
+  forall (n : Z) (inside : Z -> Z -> bool) (area : Z -> Z), 0 <= n ->
+  (forall i j, 0 <= i < n -> 0 <= j < n -> inside i j = true -> Z.abs (area i) < Z.abs (area j)) ->
+  (forall i, 0 <= i < n -> area i <> 0) ->
+  (forall i, 0 <= i < n -> area i < 0 -> exists j, 0 <= j < n /\ j <> i /\ inside i j = true) ->
+  forall a2 : Z -> Z,
+  zsum (map (fun c => zsum (map a2 c)) (decompose n inside area)) = zsum (map a2 (ziota n)).
+Proof. exact decompose_area_additive_regular. Qed.
+Print Assumptions decompose_area_additivity_regular.
 
 Example decompose_example :
   decompose_rings [ [(0,0);(10,0);(10,10);(0,10)]; [(1,9);(9,9);(9,1);(1,1)]; [(2,2);(8,2);(8,8);(2,8)];
@@ -250,3 +286,75 @@ Theorem round_join_substep :
   0 < full -> 0 <= sweep -> (1 <= n)%nat -> sweep / full <= INR n -> sweep / INR n <= full.
 Proof. exact substep_le_fullstep. Qed.
 Print Assumptions round_join_substep.
+
+(* ---- local facts about the join vertices emitted at a convex corner ---- *)
+
+(* endPrev / startNext (every join type, also the two bevel vertices) are exactly |delta| from V;
+   round-join vertices likewise (round_join_chord_error above bounds the chords between them);
+   the miter vertex is within limit*|delta| (miter_point_correct);
+   the two square-cap vertices are between |delta| and sqrt 2 |delta| from V. *)
+Theorem join_vertices_within_bound :
+  forall (V n b : vec) (delta c s sgn : R),
+  vlen2 n = 1 -> vlen2 b = 1 -> 0 <= c -> 0 <= s -> s * s + c * c = 1 -> sgn * sgn = 1 ->
+  vlen2 (vsub (offset_pt V n delta) V) = delta * delta /\
+  delta * delta <= vlen2 (vsub (square_pt V b delta (Rabs delta * s / (1 + c)) sgn) V) <= 2 * (delta * delta).
+Proof.
+  intros V n b delta c s sgn Hn Hb Hc Hs Hsc Hsg.
+  exact (conj (offset_pt_on_circle V n delta Hn) (square_pt_distance V b delta c s sgn Hb Hc Hs Hsc Hsg)).
+Qed.
+Print Assumptions join_vertices_within_bound.
+
+(* the square cap ends exactly on the offset lines of the two incident edges
+   (sg = sign of delta; the cross-product signs say nNext is on the side of nPrev that the
+   convexity test selects) *)
+Theorem square_cap_ends_on_offset_lines :
+  forall (V b nP nN : vec) (delta c s sg : R),
+  0 < 1 + c -> s * s + c * c = 1 ->
+  vdot b nP = c -> vdot b nN = c -> vcross b nP = - sg * s -> vcross b nN = sg * s ->
+  sg * sg = 1 -> sg * delta = Rabs delta ->
+  vdot (vsub (square_pt V b delta (Rabs delta * s / (1 + c)) (-1)) V) nP = delta /\
+  vdot (vsub (square_pt V b delta (Rabs delta * s / (1 + c)) 1) V) nN = delta.
+Proof. exact square_cap_on_offset_lines. Qed.
+Print Assumptions square_cap_ends_on_offset_lines.
+
+(* a round-join vertex V + delta rot(nPrev, a), 0 <= a <= pi, projects beyond the end V of the
+   previous edge (direction d, nPrev = (d.y, -d.x)): every point V - t d, t >= 0, of that edge is at
+   least |delta| away from it, so its distance to the edge is exactly |delta| (attained at V).
+   (NOT: distance >= |delta| from the edge's *line* - false for corners sharper than 90 degrees.) *)
+Theorem round_vertex_distance_to_incident_edge :
+  forall (V d : vec) (delta a t : R),
+  vlen2 d = 1 -> 0 < delta -> 0 <= a <= PI -> 0 <= t ->
+  delta * delta <= vlen2 (vsub (round_pt V (snd d, - fst d) delta a) (vsub V (vscale t d))).
+Proof. exact round_vertex_nearest_is_V. Qed.
+Print Assumptions round_vertex_distance_to_incident_edge.
+
+(* convex polygon, delta > 0, round joins, BEFORE the final union: the rectangle swept by an edge
+   (a polygon point Y moved by t in [0, delta] along that edge's unit normal ni) lies on the inner
+   side of every offset edge (normal nj through Vj) and of every round-join chord at Vj between
+   unit directions w1, w2 of the normal cone, provided ni is at least half a step away from the
+   chord direction; that proviso is proved for the two edges incident to the corner. *)
+Theorem convex_offset_contains_swept_edges :
+  (forall (Y Vj ni nj : vec) (t delta : R),
+     vlen2 ni = 1 -> vlen2 nj = 1 -> 0 <= t <= delta -> vdot (vsub Y Vj) nj <= 0 ->
+     vdot (vsub (vadd Y (vscale t ni)) Vj) nj <= delta) /\
+  (forall (Y Vj ni w1 w2 : vec) (t delta : R),
+     0 <= t <= delta -> 0 <= 1 + vdot w1 w2 ->
+     vdot (vsub Y Vj) w1 <= 0 -> vdot (vsub Y Vj) w2 <= 0 ->
+     vdot ni (vadd w1 w2) <= 1 + vdot w1 w2 ->
+     vdot (vsub (vadd Y (vscale t ni)) Vj) (vadd w1 w2) <= delta * (1 + vdot w1 w2)) /\
+  (forall (w0 : vec) (a1 a2 : R),
+     vlen2 w0 = 1 -> 0 <= a1 <= PI -> 0 <= a2 <= PI ->
+     vdot w0 (vadd (rot w0 a1) (rot w0 a2)) <= 1 + vdot (rot w0 a1) (rot w0 a2)).
+Proof. exact (conj swept_inside_offset_edge (conj swept_inside_chord incident_edge_half_step)). Qed.
+Print Assumptions convex_offset_contains_swept_edges.
+
+(* REMAINING GAP of the whole-region claim (decided per sample point by offset_check, not proved):
+   (g1) for a convex polygon: that the normals of non-incident edges are at least half a step away
+        from every chord direction (angular sortedness of the normals), and that the region bounded
+        by the convex offset ring is the intersection of the inner half-planes of its edges;
+   (g2) for general input: that the Positive (winding > 0) fill of the raw offset rings, with the
+        self-intersections left at concave joins and the inversion of features narrower than
+        2|delta|, is the union of the input with the swept rectangles and the join wedges - the
+        winding-number bookkeeping at concave joins (where finding fix_C12_1 lived);
+   (g3) that ApplyFillRule computes that fill (property C11) and the effect of rounding in the
+        doubles (unit normals, sind/cosd, the miter division). *)
